@@ -108,20 +108,61 @@ REGISTRY = {
                             "caller-added list outwards; only total adaptors may occur on that path (R16.1, with a positive "
                             "fixture); set_header pushes exactly when both conversions succeed (R16.2); order (R16.3 = R02.6); "
                             "capacity constant (R16.4)."),
+    "C18": dict(modules=["rules_c18"], min_instances=5, trusted_base=TB,
+                explanation="Narrow structural part: E4 table of the public wrapper over the writer mode (R18.1) and compile-time "
+                            "constant coherence (R18.2). The for-all-n fit, <= n and monotonicity are NOT decided (arithmetic over "
+                            "run-time lengths)."),
+    "C12": dict(modules=["rules_c12"], min_instances=40, trusted_base=TB,
+                explanation="E5 panic-site inventory (every Assert terminator, panic call, unwrap/expect, slice index, copy_from_slice) "
+                            "over all functions reachable from the server-facing API; each site must be discharged by the typestate "
+                            "fixpoint, by caller-dispatch dominance, by a bound obligation proven on every abstract path (order "
+                            "reasoning: E3 inside E4, with the decoder's cursor invariant and widening with thresholds for loops) or "
+                            "by a reviewed reason (R12.1/R12.5); returned counts bounded (R12.2); output written only by the three "
+                            "aligned copies (R12.3); every loop is an iterator exhaustion loop or a progress loop (R12.4)."),
+    "C01": dict(modules=["rules_c01"], min_instances=25, trusted_base=TB,
+                explanation="PARTIAL. The resumability discipline behind segmentation independence: E1 store summaries show the "
+                            "20 read-only queries are effect-free (R01.1); rollback pairing of try_write and all writes inside it "
+                            "(R01.2); every need-more exit (four decoder handlers, head parser, call layer, await-100 reader) "
+                            "consumes 0 and stores nothing (R01.3); header index / consumed counter / phase advance only under "
+                            "the success edge of the emitting try_write (R01.4). The equality of two runs under different "
+                            "schedules is a relation between executions and is not decided."),
 }
 
 _PENDING = "check not built yet in this round (planned static rules: DESIGN.md section 4)"
 NOT_APPLICABLE = {
-    "C01": _PENDING, 
     
-    "C12": _PENDING, 
-    "C18": _PENDING, 
+    
+    
+    
     "C19": "quantitative liveness claim over two run-time lengths and hex-digit counts: no clause is visible in "
            "the shape of the code without evaluating that arithmetic (a solver or execution would be another "
            "technique family); a structural proxy would fire on correct rewrites. Not decided by static analysis.",
 }
 
 MANIFEST_META = {
+    "C01": dict(
+        technique="effect (store) summaries + rollback/ordering rules + need-more tables (partial: necessary conditions only)",
+        design_ref="DESIGN.md section 4 C01",
+        level_text="PARTIAL: decides the per-step discipline (pure queries, all-or-nothing emissions with rollback, clean need-more "
+                   "exits, progress recorded iff reported), each a necessary condition of segmentation independence.",
+        level_note="NOT decided: equality of outcomes across two schedules (a 2-run relation), arithmetic effects such as C19's "
+                   "progress, foreign parsers. F6 (partial redirect fallback) is owned by C05."),
+    "C12": dict(
+        technique="panic-site inventory over MIR with per-site discharge (typestate, dominance, bound obligations by order reasoning) + loop classification",
+        design_ref="DESIGN.md section 4 C12",
+        level_text="Every panic-capable MIR site reachable from server-facing calls is discharged or listed as reviewed; "
+                   "consumed/produced counts are bounded; produced bytes are copies of consumed bytes; loops terminate.",
+        level_note="NOT decided: panics, overflow or non-termination inside httparse / http / url for arbitrary bytes (axioms; "
+                   "F4 showed one such axiom false, which is why foreign Results are never unwrapped). Reviewed sites are "
+                   "counted in the evidence as reviewed, not proven."),
+    "C18": dict(
+        technique="abstract interpretation of the wrapper + compile-time constant coherence (partial: necessary conditions only)",
+        design_ref="DESIGN.md section 4 C18",
+        level_text="PARTIAL: decides only that the wrapper returns n for length-delimited bodies and the closed form for chunked "
+                   "ones, and that the constants the closed form and the chunk writer use are coherent. Each is a necessary "
+                   "condition of the property; the property itself (for every n the advertised input fits, <= n, monotone) is "
+                   "arithmetic over run-time values and is not decided by static analysis.",
+        level_note="The core for-all-n claim is not claimed; see DESIGN.md section 4 C18/C19."),
     "C16": dict(
         technique="iterator-adaptor dataflow over the abstract value of the effective header iterator + event rules",
         design_ref="DESIGN.md section 4 C16",
